@@ -393,7 +393,7 @@ def timeDependencyResolved (inst : Instance) (s : State) (t : TransportState) (b
 /-- `create_avg_idle_to_pick_transition` -/
 def agvIdleToPickTransition (inst : Instance) (s : State) (t : TransportState) :
     Except Err (Option Transition) := do
-  let jid ← match t.job with | some j => pure j | none => throw .transportJob
+  let jid ← optE t.job .transportJob
   let j ← getJob s.jobs jid
   let ready ← readyForPickup inst s j
   pure ((idleToPickNext t.st ready).map fun ns => { comp := .t t.id, new := .t ns, job := some j.id })
